@@ -1,5 +1,5 @@
 // instrument makes a scratch copy of the zerolog working tree and rewrites the chosen
-// packages so that every sync / sync/atomic / go / blocking-receive / time.Sleep operation
+// packages so that every sync / sync/atomic / go / blocking-receive / buffered-send / time.Sleep operation
 // goes through the cooperative scheduler in /verif/sched. Anything it cannot model makes
 // it exit 2 rather than guess.
 package main
@@ -147,6 +147,21 @@ func (r *rewriter) stmt(s ast.Stmt) []ast.Stmt {
 		r.exprsIn(x.Call)
 		fl := &ast.FuncLit{Type: &ast.FuncType{Params: &ast.FieldList{}}, Body: &ast.BlockStmt{List: []ast.Stmt{&ast.ExprStmt{X: x.Call}}}}
 		return []ast.Stmt{&ast.ExprStmt{X: &ast.CallExpr{Fun: sel("vsched", "Go"), Args: []ast.Expr{fl}}}}
+	case *ast.SendStmt:
+		// a plain (blocking) send statement `ch <- v`: the thread waits, as a scheduler-visible blocked state,
+		// until the buffered channel has room, then sends for real (threads run one at a time, so the room is
+		// still there):  { c := ch; vsched.SendReady(func() bool { return len(c) < cap(c) }); c <- v }
+		r.needSched = true
+		r.exprsIn(x.Value)
+		c := ast.NewIdent("vschedSendCh")
+		room := &ast.FuncLit{Type: &ast.FuncType{Params: &ast.FieldList{}, Results: &ast.FieldList{List: []*ast.Field{{Type: ast.NewIdent("bool")}}}},
+			Body: &ast.BlockStmt{List: []ast.Stmt{&ast.ReturnStmt{Results: []ast.Expr{&ast.BinaryExpr{Op: token.LSS,
+				X: &ast.CallExpr{Fun: ast.NewIdent("len"), Args: []ast.Expr{c}}, Y: &ast.CallExpr{Fun: ast.NewIdent("cap"), Args: []ast.Expr{c}}}}}}}}
+		return []ast.Stmt{&ast.BlockStmt{List: []ast.Stmt{
+			&ast.AssignStmt{Lhs: []ast.Expr{c}, Tok: token.DEFINE, Rhs: []ast.Expr{x.Chan}},
+			&ast.ExprStmt{X: &ast.CallExpr{Fun: sel("vsched", "SendReady"), Args: []ast.Expr{room, &ast.CallExpr{Fun: ast.NewIdent("cap"), Args: []ast.Expr{c}}}}},
+			&ast.SendStmt{Chan: c, Value: x.Value},
+		}}}
 	case *ast.ExprStmt:
 		x.X = r.expr(x.X)
 		r.exprsIn(x)
